@@ -873,7 +873,7 @@ attrsLoop:
 		}
 	}
 
-	if p.requireSandboxOnIFrame != nil && elementName == "iframe" {
+	if p.requireSandboxOnIFrame != nil && elementName == "iframe" && len(cleanAttrs) > 0 {
 		var sandboxFound bool
 		for i, htmlAttr := range cleanAttrs {
 			if htmlAttr.Key == "sandbox" {
